@@ -40,6 +40,9 @@ package connectconformance
 //@   //# attribution: a line is recorded as feedback only under a name of this batch and only in the form "name: message"; anything else non-empty is passed through
 //@   assert_at "results.recordSideband(parts[0], parts[1])": has(testCaseNameSet, parts[0]) && str == parts[0] + ": " + parts[1]
 //@   assert_at "errPrinter.PrefixPrintf(": !isSideband && str != ""
+//@   //# the reader only stops after the chunk it got together with the error has been looked at: at the return the
+//@   //# trimmed form of the last chunk exists (a last line without newline is still attributed or passed through)
+//@   assert_at "return": str == strTrimSpace(origLine)
 //@   loop 0: invariant r != nil && !chanClosed[refServerFinished]
 
 //@ elemvalues []*conformancev1.TestCase in runTestCasesForServer: v != nil && v.Request != nil
@@ -56,7 +59,16 @@ package connectconformance
 //@   ensures @stopped startedProc[0] != old(startedProc[0]) && startedProc[0] != nil ==> abortN[startedProc[0].processController] > old(abortN)[startedProc[0].processController] //# a server that was started is asked to stop
 //@   ensures @accounted forall i int :: 0 <= i && i < len(testCases) ==>
 //@        has(results.outcomes, testCases[i].Request.TestName) || sendOK[testCases[i].Request.TestName]
+//@   //# once requests may be in flight the function only returns after waiting for their callbacks (and then stops the
+//@   //# server, drains its stderr and marks what is left) - except when nothing could be sent at all (set-up failures)
+//@   //# or the server process is gone
+//@   returns_after "wg.Wait()" unless "results.failedToStart(", "server process terminated unexpectedly"
 //@   assert_at "req.ServerTlsCert = resp.PemCert": meta.useTLS ==> len(resp.PemCert) > 0 //# no request goes to the client of a TLS batch without the server's certificate
+//@   //# the batch only proceeds with a response that was read without any error (an empty or cut-off answer is a setup error)
+//@   assert_at "if meta.useTLS && len(resp.PemCert) == 0 {": err == nil
+//@   //# a case is only handed to the client while the server process is still alive - also the last one of the batch
+//@   snapshot_at "binop:if procCtx.Err() != nil": serverGone = operand(0) != nil
+//@   assert_at "req := proto.Clone(testCase.Request)": !serverGone
 //@   loop 0: invariant testCaseNameSet != nil && fresh(testCaseNameSet)
 //@   loop 1: invariant forall k int :: 0 <= k && k <= rangeindex ==> sendOK[testCases[k].Request.TestName]
 //@   loop 2: invariant i <= j && j <= len(testCases)
